@@ -15981,7 +15981,11 @@ R_<TG_, TA_>::load(ReadStream& stream) noexcept {
 	TransitionSets emptyTransitions;
 	PlanControl control{_core, emptyTransitions};
 
+	const auto resumable = _core.registry.compoResumable;
+
 	_apex.deepChangeToRequested(control);
+
+	_core.registry.compoResumable = resumable;
 
 	HFSM2_IF_STRUCTURE_REPORT(udpateActivity());
 }
@@ -16591,7 +16595,11 @@ RV_<G_<NFT_, TC_, Manual, TRO_ HFSM2_IF_UTILITY_THEORY(, TR_, TU_, TG_), NSL_ HF
 	TransitionSets emptyTransitions;
 	PlanControl control{_core, emptyTransitions};
 
+	const auto resumable = _core.registry.compoResumable;
+
 	_apex.deepEnter(control);
+
+	_core.registry.compoResumable = resumable;
 
 	HFSM2_IF_STRUCTURE_REPORT(udpateActivity());
 }
